@@ -19,6 +19,7 @@ RULE += (
          'position of a real tag of each syntax; what the reference '
          'lexer no longer recognises as a tag must come out verbatim). ')
 RULE += ('Round 8: literal look-alikes of dotted entities (&dtml.foo;), near-miss tags made by deleting 1-3 characters, loops with literal / empty bodies under every literal batch option set. ')
+RULE += ('Round 9: literal text around insertions of every value kind (bytes included) and one-word literal bodies in 13 block positions. ')
 ASSUMPTIONS = [
     'literal fragments that collide with a neighbouring tag according to a '
     'conservative reference lexer are dropped by construction (counted as '
